@@ -400,8 +400,8 @@ PROPS['C04'] = dict(
                'FAULT=OFF and FAULT=THREAD builds. Any TSan report or wrong payload is a violation.',
     level_note='Detects missing happens-before on executed paths only; absence of reports is not absence of races.',
     jobs=q(
-        [dict(target='races-off', family='races_off', mode='random', cases=250, workers=8, timeout=900, racy=True),
-         dict(target='races-thr', family='races_thread', mode='random', cases=250, workers=8, timeout=900, racy=True)],
+        [dict(target='races-off', family='races_off', mode='random', cases=600, workers=8, timeout=900, racy=True),
+         dict(target='races-thr', family='races_thread', mode='random', cases=600, workers=8, timeout=900, racy=True)],
         [dict(target='races-off', family='races_off', mode='random', cases=6000, workers=8, timeout=3000, racy=True),
          dict(target='races-thr', family='races_thread', mode='random', cases=6000, workers=8, timeout=3000, racy=True)]),
 )
